@@ -15,10 +15,11 @@ ID = "C02"
 LEVEL = "exploration"
 N_QUICK, N_THOROUGH = 2400, 60000
 T_QUICK, T_THOROUGH = 75, 1500
-FLOORS = {"types_compiled": 300, "calls_compared": 10000, "kind:get": 2000, "kind:getp": 5000, "kind:len": 1000,
-          "kind:typeid": 200, "kind:member": 100, "nonzero_offset_objects": 300, "standalone_runs": 30,
+FLOORS = {"types_compiled": 300, "calls_compared": 5000, "kind:get": 2000, "kind:getp": 3000, "kind:len": 1000,
+          "kind:typeid": 100, "kind:member": 100, "nonzero_offset_objects": 300, "standalone_runs": 30,
           "seen:ar2doD": 3, "seen:ar1dD": 30, "seen:ref": 50, "paths_through_refs": 500,
-          "dynitem_array_not_outermost": 100, "growths_between_calls": 100}
+          "dynitem_array_not_outermost": 100, "growths_between_calls": 100,
+          "header_cases": 100, "perturbed_header_addresses": 1500}
 RULE = ("random type AST rooted at struct/array/unionref (depth<=3, all item kinds incl. arrays of dynamic items nested "
         "in structs and arrays, refs forwards/backwards) x value; object never at offset 0, neighbours around; every "
         "generated accessor of every access path (get, getp[n], len[n], typeid, member) called through the real "
@@ -45,6 +46,8 @@ def teardown(w):
 
 
 def run_case(w, rng):
+    if rng.random() < 0.12:
+        return run_header_case(w, rng)
     c = new_case(w, rng, roots=("st", "st", "ar", "ar", "ur"), depth=rng.choice([1, 2, 2, 3]),
                  env_kw=dict(al=rng.choice([8, 8, 16, 1, 4]), neighbours=rng.choice([1, 2, 3])),
                  modes=(None, "aligned", "packed"), vg_kw=dict(max_dyn=3, nulls=0.2))
@@ -138,3 +141,103 @@ def _standalone(w, c, h, calls, viol):
                 break
         else:
             viol("standalone-differs|length", f"{len(r['out'])} lines vs {len(want)}")
+
+
+# --------------------------------------------------------------------------
+# "for all header contents": the emitted address arithmetic must follow the strides STORED in the object
+# --------------------------------------------------------------------------
+def run_header_case(w, rng):
+    """A multi-dimensional array with a dynamic dimension keeps its strides in its header.  The stored strides are
+    overwritten with other values (directly in native storage) and every element address returned by the C
+    accessor must equal the documented expression  array + data offset + sum(index_k * stored stride_k),  which is
+    also what a fresh Python view reports."""
+    import struct as _st
+    from xv.typegen import TypeGen, ValGen, build, plain, DT
+    from xv.model import Env
+    from xv.props.common import ctxs
+
+    tg = TypeGen(rng)
+    nd = rng.choice([2, 2, 3])
+    dims = [rng.choice([None, 2, 3]) for _ in range(nd)]
+    if None not in dims:
+        dims[rng.randrange(nd)] = None
+    order = list(range(nd))
+    if rng.random() < 0.6:
+        rng.shuffle(order)
+    sc = tg.scalar()
+    ta = {"k": "ar", "n": tg.name("A"), "it": sc, "dims": dims, "ord": order}
+    wrapped = rng.random() < 0.6
+    if wrapped:
+        fs = [["k", {"k": "sc", "t": "Int64"}]]
+        if rng.random() < 0.5:
+            fs.append(["s", {"k": "str"}])
+        fs.append(["a", ta])
+        if rng.random() < 0.5:
+            fs.append(["z", {"k": "ar", "n": tg.name("Z"), "it": {"k": "sc", "t": "Int32"}, "dims": [None], "ord": [0]}])
+        t = {"k": "st", "n": tg.name("S"), "f": fs}
+    else:
+        t = ta
+    cache = {}
+    cls = build(t, cache)
+    vg = ValGen(rng, max_dyn=3, zero_dims=0.0)
+    mv = vg.value(t)
+    env = Env(rng, ctx=ctxs()[0], al=rng.choice([8, 16, 1]), neighbours=rng.choice([1, 2]))
+    info = dict(type=t, header_case=True, placement=env.placement())
+    seen = set()
+
+    def viol(mech, msg):
+        if mech not in seen:
+            seen.add(mech)
+            w.violation(mech, msg, info)
+
+    try:
+        env.buf.allocate(rng.choice([8, 24, 40]))
+        try:
+            h = cls(plain(t, mv, rng), _buffer=env.buf)
+            env.add_neighbour(200)  # room behind the object: perturbed addresses are only computed, never dereferenced
+            _ip.compile(cls)
+        except Exception as e:
+            viol(f"header-case-setup-{type(e).__name__}", f"{str(e)[-800:]}")
+            return
+        arr = h.a if wrapped else h
+        amv = mv["a"] if wrapped else mv
+        A = int(arr._offset)
+        ndyn = sum(1 for d in dims if d is None)
+        hdr = A + 8 + 8 * ndyn
+        data_off = 8 + 8 * ndyn + 8 * nd
+        isz = DT[sc["t"]].itemsize
+        raw = bufmon.raw_bytes(env.buf)
+        stored = list(_st.unpack_from(f"<{nd}q", raw, hdr))
+        if stored != [int(x) for x in arr._strides]:
+            viol("stored-strides-not-where-documented", f"header words {stored}, python strides {tuple(arr._strides)}")
+            return
+        calls = [cl for cl in plan_calls(t, h, mv, rng=rng) if cl.kind == "getp" and cl.leaf_t is not None
+                 and len(cl.idx) == nd]
+        w.count("header_cases")
+        for trial in range(3):
+            new = [isz * rng.randint(1, 7) for _ in range(nd)]
+            bufmon.poke(env.buf, hdr, _st.pack(f"<{nd}q", *new))
+            view = type(arr)._from_buffer(env.buf, A)
+            for cl in calls:
+                idx = tuple(cl.idx)
+                want = A + data_off + sum(i * s_ for i, s_ in zip(idx, new))
+                try:
+                    got = _ip.call(h, cl)
+                except Exception as e:
+                    viol(f"call-{type(e).__name__}|getp|perturbed-header", f"{cl.name}{cl.idx}: {e}")
+                    break
+                w.count("perturbed_header_addresses")
+                if int(got) != want:
+                    viol("c-address-ignores-stored-strides", f"{cl.name}{list(idx)} with stored strides {new} (created with {stored}): "
+                         f"C returned {got}, documented expression gives {want}")
+                    break
+                pv = int(view._get_offset(idx))
+                if pv != want:
+                    viol("python-view-ignores-stored-strides", f"index {idx} strides {new}: python {pv}, documented {want}")
+                    break
+            if seen:
+                break
+        w.case(["header", dims, order, sc["t"], wrapped], sample=info if rng.random() < 0.02 else None)
+    finally:
+        env.close()
+        flush_contracts(w, info)
